@@ -198,6 +198,30 @@ func rulesC18(c *Ctx) {
 				c.OK("C18.recognisers", key, stripLit.Pos(), "same side, same case folding as the splitter")
 			}
 		}
+		// a name test wider than equality strips predicates on other columns
+		nWide := 0
+		for _, fn := range append([]*ssa.Function{stripLit}, strip) {
+			for _, b := range fn.Blocks {
+				for _, in := range b.Instrs {
+					call, ok := in.(*ssa.Call)
+					if !ok || call.Call.StaticCallee() == nil || call.Call.StaticCallee().Pkg == nil || call.Call.StaticCallee().Pkg.Pkg.Path() != "strings" {
+						continue
+					}
+					name := call.Call.StaticCallee().Name()
+					switch name {
+					case "HasSuffix", "HasPrefix", "Contains", "Index", "LastIndex", "ContainsAny":
+					default:
+						continue
+					}
+					for _, a := range call.Call.Args {
+						if k, ok := a.(*ssa.Const); ok && k.Value != nil && k.Value.Kind() == constant.String && strings.EqualFold(constant.StringVal(k.Value), "time") {
+							nWide++
+							c.Bad("C18.recognisers", fmt.Sprintf("rewriteWithoutTimeDimensions: name tested with strings.%s #%d", name, nWide), call.Pos(), "the stripper takes every name that passes strings."+name+"(…, \"time\") for the time column: a predicate on response_time or uptime is replaced by true and lost, while ConditionExpr (equality) never counted it as a bound")
+						}
+					}
+				}
+			}
+		}
 		c.Rule("C18.parens", "the stripper of SetTimeRange looks through parentheses around a comparison's operands when it tests for the time variable: the fold that follows removes such parentheses, so `(time) > x` becomes an ordinary time bound afterwards and, not having been stripped, keeps intersecting with every new window")
 		stripperTotalRule(c, "C18.parens")
 		parenTransparencyRule(c, "C18.parens", "rewriteWithoutTimeDimensions: time operand inside parentheses", stripLit, "*VarRef", "the operands are tested for *VarRef directly: `(time) > '2030-01-01T00:00:00Z'` is not recognised, survives the call, and after the fold it is a plain time bound that contradicts the new window")
@@ -205,6 +229,8 @@ func rulesC18(c *Ctx) {
 		callstripC18(c, stripLit)
 	}
 	c.Floor("C18.recognisers", c.CountRule("C18.recognisers"), 2)
+	// the fold that SetTimeRange ends with must not change what a kept predicate means
+	importRules(c, rulesC09, "C09.", "C18.fold-", func(r string) bool { return r == "C09.promote" || r == "C09.opcorr" })
 
 	// ---- window ----
 	c.Rule("C18.window", "SetTimeRange appends `time >= '<start>' AND time < '<end>'` with start and end in that order, both converted to UTC and formatted with RFC3339Nano (no lost fraction), joins it with AND to the parenthesised stripped condition, re-parses and stores the folded result into the statement's condition")
